@@ -50,6 +50,12 @@ def string_key_tests(fn):
         while d[0] == "un" and d[1] == "Not":
             neg = not neg
             d = strip(d[2], calls=set())
+        if d[0] == "phi":
+            # `a == "x" || a == "y"` returned by a spliced helper: the constant alternatives belong to the edges that were
+            # threaded away; what is still tested here is the remaining comparison
+            rest = [strip(a, calls=set()) for a in d[1] if not (strip(a, calls=set())[0] == "const" and strip(a, calls=set())[1] == "bool")]
+            if len(rest) == 1:
+                d = rest[0]
         if d[0] != "call" or len(d[2]) != 2:
             continue
         mode = STR_EQ_CALLS.get(d[1])
